@@ -816,7 +816,7 @@ theorem LabelsAgree.symm {p q : Pod} (h : LabelsAgree p q) : LabelsAgree q p := 
 
 /-- success of the loop: the pods agree pairwise -/
 theorem go_ok_pairwise {firsts res r : List (String × Pod)} {l : List Pod}
-    (h : podOwnersMap.go firsts res l = .ok r) : l.Pairwise LabelsAgree := by
+    (h : podOwnersMapOf.go firsts res l = .ok r) : l.Pairwise LabelsAgree := by
   induction l generalizing firsts res with
   | nil => exact List.Pairwise.nil
   | cons p rest ih =>
@@ -861,9 +861,9 @@ theorem go_ok_pairwise {firsts res r : List (String × Pod)} {l : List Pod}
 key, that agree with every pod still to come. -/
 theorem go_ok_of_pairwise {firsts res : List (String × Pod)} {l : List Pod}
     (hf : ∀ kf ∈ firsts, kf.1 = ownerKey kf.2 ∧ kf.2.ownerName ≠ "" ∧ ∀ q ∈ l, LabelsAgree kf.2 q)
-    (h : l.Pairwise LabelsAgree) : ∃ r, podOwnersMap.go firsts res l = .ok r := by
+    (h : l.Pairwise LabelsAgree) : ∃ r, podOwnersMapOf.go firsts res l = .ok r := by
   induction l generalizing firsts res with
-  | nil => exact ⟨res, by simp [podOwnersMap.go]⟩
+  | nil => exact ⟨res, by simp [podOwnersMapOf.go]⟩
   | cons p rest ih =>
     rw [List.pairwise_cons] at h
     have hf' : ∀ kf ∈ firsts, kf.1 = ownerKey kf.2 ∧ kf.2.ownerName ≠ "" ∧
@@ -895,7 +895,8 @@ theorem go_ok_of_pairwise {firsts res : List (String × Pod)} {l : List Pod}
 /-- `podOwnersMap` succeeds exactly when the pods agree pairwise -/
 theorem podOwnersMap_ok_iff (e : Engine) :
     (∃ r, e.podOwnersMap = .ok r) ↔ e.pods.Pairwise LabelsAgree := by
-  unfold podOwnersMap
+  rw [← (sortedPods_perm e).pairwise_iff LabelsAgree.symm]
+  unfold podOwnersMap podOwnersMapOf
   constructor
   · rintro ⟨r, h⟩; exact go_ok_pairwise h
   · intro h; exact go_ok_of_pairwise (by intro kf hkf; cases hkf) h
@@ -908,13 +909,13 @@ theorem podOwnersMap_isOk_perm {e e' : Engine} (hp : e.pods.Perm e'.pods) :
 
 /-- every pod is represented in the result under its workload name -/
 theorem go_covers {firsts res r : List (String × Pod)} {l : List Pod}
-    (h : podOwnersMap.go firsts res l = .ok r) :
+    (h : podOwnersMapOf.go firsts res l = .ok r) :
     (∀ n ∈ res.map (·.1), n ∈ r.map (·.1)) ∧ ∀ p ∈ l, workloadName p ∈ r.map (·.1) := by
   induction l generalizing firsts res with
-  | nil => simp [podOwnersMap.go] at h; subst h; exact ⟨fun n hn => hn, fun p hp => by cases hp⟩
+  | nil => simp [podOwnersMapOf.go] at h; subst h; exact ⟨fun n hn => hn, fun p hp => by cases hp⟩
   | cons p rest ih =>
     rw [go_cons] at h
-    have key : ∀ firsts', podOwnersMap.go firsts' (upsert (·.1) (workloadName p, p) res) rest = .ok r →
+    have key : ∀ firsts', podOwnersMapOf.go firsts' (upsert (·.1) (workloadName p, p) res) rest = .ok r →
         (∀ n ∈ res.map (·.1), n ∈ r.map (·.1)) ∧ ∀ q ∈ p :: rest, workloadName q ∈ r.map (·.1) := by
       intro firsts' h'
       obtain ⟨i1, i2⟩ := ih h'
@@ -949,11 +950,29 @@ theorem podOwnersMap_facts {e : Engine} {owners : List (String × Pod)}
     (owners.map (·.1)).Nodup ∧ (∀ x ∈ owners, x.1 = workloadName x.2 ∧ x.2 ∈ e.pods) ∧
     ∀ p ∈ e.pods, workloadName p ∈ owners.map (·.1) := by
   refine ⟨ownerPeers_names_nodup h, ?_, ?_⟩
-  · unfold podOwnersMap at h
+  · unfold podOwnersMap podOwnersMapOf at h
     exact go_forall (fun x => x.1 = workloadName x.2 ∧ x.2 ∈ e.pods) (by intro x hx; cases hx)
-      (fun p hp => ⟨rfl, hp⟩) h
-  · unfold podOwnersMap at h
-    exact (go_covers h).2
+      (fun p hp => ⟨rfl, mem_sortedPods.mp hp⟩) h
+  · unfold podOwnersMap podOwnersMapOf at h
+    exact fun p hp => (go_covers h).2 p (mem_sortedPods.mpr hp)
+
+/-! ### the pods in key order: the workload peers do not depend on the order of the pod map -/
+
+/-- two pod maps with the same entries (unique keys) have the same key-sorted pod list -/
+theorem sortedPods_perm_eq {e e' : Engine} (hp : e.pods.Perm e'.pods)
+    (hn : (e.pods.map podKey).Nodup) : e.sortedPods = e'.sortedPods := by
+  refine List.Perm.eq_of_pairwise (le := fun a b => podKey a ≤ podKey b) ?_ (sortedPods_sorted e)
+    (sortedPods_sorted e')
+    ((sortedPods_perm e).trans (hp.trans (sortedPods_perm e').symm))
+  intro a b ha hb h1 h2
+  exact eq_of_key_eq hn (mem_sortedPods.mp ha) (hp.mem_iff.mpr (mem_sortedPods.mp hb))
+    (String.le_antisymm h1 h2)
+
+/-- **the workload peers and the pods standing for them do not depend on the order of the pod
+map** (sorted iteration of `createPodOwnersMap`) -/
+theorem podOwnersMap_perm {e e' : Engine} (hp : e.pods.Perm e'.pods)
+    (hn : (e.pods.map podKey).Nodup) : e.podOwnersMap = e'.podOwnersMap := by
+  unfold podOwnersMap; rw [sortedPods_perm_eq hp hn]
 
 /-! ## D. the NetworkPolicy layer -/
 
@@ -1171,9 +1190,7 @@ theorem allowedConns_go_struct (np : NetPol) (other dst : KPeer) (hd : dst.DstOK
         obtain ⟨hw, _, _⟩ := NetPol.ruleConnections_dst_ok r.ports dst 0 hd hr.1 rc hrc
         have hcan' := ConnSet.canonical_union_wfe hcan hw
         have hpl' := plain_union hpl (ruleConnections_plain hd.real r.ports hrc)
-        split
-        · exact ⟨fun c h => (by cases h; exact ⟨hcan', hpl'⟩), fun err h => (by cases h)⟩
-        · exact ih' _ hcan' hpl'
+        exact ih' _ hcan' hpl'
 
 /-- the NetworkPolicies of an engine are as the API server accepts them -/
 def NPValid (nps : List NetPol) : Prop :=
@@ -1954,60 +1971,167 @@ theorem toKPeer_ok_of_ns {e : Engine} {s : LPeer}
     simp only [toKPeer, hns]
     split <;> exact ⟨_, rfl⟩
 
-/-- the hypotheses on the input of the order-independence theorems: keys are distinct, pods that
-share a workload name are interchangeable, ports and policies are valid -/
+/-- no pod of the input is the representative pod of the exposure analysis (the parser never
+produces one) -/
+def PodsReal (objs : List Obj) : Prop := ∀ p ∈ podsIn objs, p.isRepresentative = false
+
+instance (objs : List Obj) : Decidable (PodsReal objs) := by unfold PodsReal; infer_instance
+
+/-- the rules of the NetworkPolicies are as the API server accepts them: legal rule ports, no rule
+peer without selector and ipBlock (the NetworkPolicy clause of `PoliciesValid`) -/
+def NPRulesValid (objs : List Obj) : Prop :=
+  ∀ p ∈ npsOf objs, (∀ r ∈ p.ingress, r.Valid) ∧ (∀ r ∈ p.egress, r.Valid)
+
+instance (objs : List Obj) : Decidable (NPRulesValid objs) := by unfold NPRulesValid; infer_instance
+
+theorem npRulesValid_of_policiesValid {objs : List Obj} (h : PoliciesValid objs) :
+    NPRulesValid objs := h.1
+
+theorem PodsReal.perm {objs objs' : List Obj} (hp : objs.Perm objs') (h : PodsReal objs) :
+    PodsReal objs' := fun p hm => h p ((podsIn_perm hp).mem_iff.mpr hm)
+
+theorem NPRulesValid.perm {objs objs' : List Obj} (hp : objs.Perm objs') (h : NPRulesValid objs) :
+    NPRulesValid objs' := fun p hm => h p ((npsOf_perm hp).mem_iff.mpr hm)
+
+theorem PodPortsValid.perm {objs objs' : List Obj} (hp : objs.Perm objs') (h : PodPortsValid objs) :
+    PodPortsValid objs' := fun p hm => h p ((podsIn_perm hp).mem_iff.mpr hm)
+
+/-- the NetworkPolicies of the engine `build` returns are valid when those of the input are -/
+theorem build_npValid {objs : List Obj} {e : Engine} (h : Engine.build objs = .ok e)
+    (hv : NPRulesValid objs) : NPValid e.netpols := by
+  obtain ⟨p1, _, _⟩ := build_policies h
+  intro np hnp
+  rw [p1] at hnp
+  obtain ⟨q, hq, rfl⟩ := List.mem_map.mp hnp
+  rw [(normNp_rules q).1, (normNp_rules q).2]
+  exact hv q hq
+
+/-- the hypotheses on the input of the order-independence theorems: keys are distinct, pods are
+real pods, ports and policies are valid. (With the sorted iteration of `createPodOwnersMap` the pods
+of one workload need not be interchangeable any more.) -/
 structure WellFormed (objs : List Obj) : Prop where
   keys : DistinctKeys objs
-  uniform : UniformPods (podsIn objs)
+  real : PodsReal objs
   ports : PodPortsValid objs
   policies : PoliciesValid objs
 
 theorem WellFormed.perm {objs objs' : List Obj} (hp : objs.Perm objs') (h : WellFormed objs) :
     WellFormed objs' :=
-  ⟨h.keys.perm hp, h.uniform.perm (podsIn_perm hp),
-    fun p hm => h.ports p ((podsIn_perm hp).mem_iff.mpr hm), h.policies.perm hp⟩
+  ⟨h.keys.perm hp, h.real.perm hp, h.ports.perm hp, h.policies.perm hp⟩
 
-/-- **the computed relation is order-independent**: on a well-formed input and any reordering of
-it, the two engines list the same peers (with similar standing pods), and the loop returns the
-same error or the same entries — as (source name, destination name, connection set) — up to
-order -/
-theorem list_relation_perm {objs objs' : List Obj} (hp : objs.Perm objs') (hw : WellFormed objs)
+/-- the pod map of the engine `build` returns has unique keys (it is a map) -/
+theorem build_pods_nodup {objs : List Obj} {e : Engine} (h : Engine.build objs = .ok e) :
+    (e.pods.map podKey).Nodup := by
+  obtain ⟨e1, hf, _, he⟩ := build_ok_parts h
+  obtain ⟨d1, _⟩ := fold_data hf
+  have hn : (e1.pods.map podKey).Nodup := by
+    rw [d1]
+    generalize podsIn objs = l
+    have : ∀ acc : List Pod, (acc.map podKey).Nodup →
+        ((l.foldl (fun a p => upsert podKey p a) acc).map podKey).Nodup := by
+      induction l with
+      | nil => exact fun acc h => h
+      | cons p l ih => exact fun acc h => ih _ (nodup_upsert podKey p h)
+    exact this _ (by simp)
+  rw [he, resolve_eq]
+  exact hn
+
+/-- on the engine `build` returns, `podOwnersMap` is the `decide`-friendly `podOwnersMapD` -/
+theorem podOwnersMap_build {objs : List Obj} {e : Engine} (h : Engine.build objs = .ok e) :
+    e.podOwnersMap = podOwnersMapD e := podOwnersMap_eq_D (build_pods_nodup h)
+
+/-! ### equivalent engines: the same peers list, the same loop -/
+
+/-- equivalent engines list the same peers, in the same order, standing on the same pods -/
+theorem peersList_equiv {e e' : Engine} (h : e.Equiv e') : e.peersList = e'.peersList := by
+  unfold peersList
+  rw [podOwnersMap_perm h.pods h.podsNodup, disjointIPBlocks_perm h.netpols]
+
+theorem toKPeer_equiv {e e' : Engine} (h : e.Equiv e') (s : LPeer) : e.toKPeer s = e'.toKPeer s := by
+  cases s with
+  | ip r => rfl
+  | wl n p => simp only [toKPeer, h.findNs]
+
+/-- the destination pod of a report peer is a real pod with legal container ports -/
+def _root_.Netpol.Engine.LPeer.DstOK : LPeer → Prop
+  | .wl _ p => p.isRepresentative = false ∧ p.ValidPorts
+  | .ip _ => True
+
+/-- one pair of the loop on two equivalent engines: the same contribution or the same error -/
+theorem pairEntry_equiv {e e' : Engine} (h : e.Equiv e') (hv : NPValid e.netpols) (focus : String)
+    (s d : LPeer) (hd : d.DstOK) : pairEntry e focus s d = pairEntry e' focus s d := by
+  unfold pairEntry
+  rw [← toKPeer_equiv h s, ← toKPeer_equiv h d]
+  split
+  · rfl
+  split
+  · rfl
+  split
+  · rfl
+  cases e.toKPeer s with
+  | error err => rfl
+  | ok ks =>
+    simp only
+    cases hkd : e.toKPeer d with
+    | error err => rfl
+    | ok kd =>
+      simp only
+      have hdok : kd.DstOK := by
+        cases d with
+        | ip r => cases hkd; trivial
+        | wl m q =>
+          obtain ⟨a, rfl⟩ := toKPeer_wl_pod hkd
+          exact hd
+      rw [peerConns_equiv h hv ks kd hdok]
+
+theorem collect_congr {α β ε : Type} {g g' : α → Except ε (List β)} {l : List α}
+    (h : ∀ a ∈ l, g a = g' a) : collect g l = collect g' l := by
+  induction l with
+  | nil => rfl
+  | cons a l ih =>
+    unfold collect
+    rw [h a (List.mem_cons_self ..), ih (fun b hb => h b (List.mem_cons_of_mem _ hb))]
+
+/-- **the loop on two equivalent engines**: the same entries in the same order, or the same error -/
+theorem connsBetweenPeers_equiv {e e' : Engine} (h : e.Equiv e') (hv : NPValid e.netpols)
+    (focus : String) (peers : List LPeer) (hok : ∀ d ∈ peers, d.DstOK) :
+    e.connsBetweenPeers peers focus = e'.connsBetweenPeers peers focus := by
+  rw [connsBetweenPeers_eq, connsBetweenPeers_eq]
+  apply collect_congr
+  intro s _
+  apply collect_congr
+  intro d hd
+  exact pairEntry_equiv h hv focus s d (hok d hd)
+
+/-- the peers of the list `build` returns stand on real pods with legal ports -/
+theorem peers_dstOK {objs : List Obj} {e : Engine} (hk : DistinctKeys objs) (hr : PodsReal objs)
+    (hpp : PodPortsValid objs) (hb : Engine.build objs = .ok e) {peers : List LPeer}
+    (hpl : e.peersList = .ok peers) : ∀ d ∈ peers, d.DstOK := by
+  have hpods : e.pods = podsIn objs := (build_fields hk hb).1
+  intro d hd
+  cases d with
+  | ip r => trivial
+  | wl m q =>
+    have := (peersList_wl hpl hd).2
+    rw [hpods] at this
+    exact ⟨hr q this, hpp q this⟩
+
+/-- **the computed relation is order-independent**: on an input with distinct keys, real pods,
+valid ports and valid NetworkPolicy rules, and any reordering of it, the two engines list the same
+peers (same order, same standing pods), and the loop returns the same entries in the same order,
+or the same error -/
+theorem list_relation_perm {objs objs' : List Obj} (hp : objs.Perm objs') (hk : DistinctKeys objs)
+    (hr : PodsReal objs) (hpp : PodPortsValid objs) (hv : NPRulesValid objs)
     {e e' : Engine} (hb : Engine.build objs = .ok e) (hb' : Engine.build objs' = .ok e')
-    {peers peers' : List LPeer} (hpl : e.peersList = .ok peers) (hpl' : e'.peersList = .ok peers')
     (focus : String) :
-    PeersSim peers peers' ∧
-    ExPerm ((e.connsBetweenPeers peers focus).map (·.map entryKey))
-      ((e'.connsBetweenPeers peers' focus).map (·.map entryKey)) := by
-  obtain ⟨e2, hb2, heq⟩ := build_perm hp hw.keys hb
+    e.peersList = e'.peersList ∧ e.podOwnersMap = e'.podOwnersMap ∧
+    ∀ peers, e.peersList = .ok peers →
+      e.connsBetweenPeers peers focus = e'.connsBetweenPeers peers focus := by
+  obtain ⟨e2, hb2, heq⟩ := build_perm hp hk hb
   rw [hb'] at hb2
   cases hb2
-  have hpods : e.pods = podsIn objs := (build_fields hw.keys hb).1
-  have hu : UniformPods e.pods := by rw [hpods]; exact hw.uniform
-  have hv : e.Valid := build_valid hb hw.policies
-  have hsim := peersList_sim heq hu hpl hpl'
-  refine ⟨hsim, connsBetweenPeers_sim heq hv.npRules focus hsim ?_
-    (selfFree_of_keys heq.podsNodup hpl) (selfFree_of_keys heq.symm.podsNodup hpl') ?_⟩
-  · intro d hd
-    cases d with
-    | ip r => trivial
-    | wl m q =>
-      have := (peersList_wl hpl hd).2
-      rw [hpods] at this
-      exact hw.ports q this
-  · intro s hs d hd err herr
-    have hns : ∀ s ∈ peers, ∃ ks, e.toKPeer s = .ok ks := by
-      intro s hs
-      apply toKPeer_ok_of_ns
-      intro n p hnp
-      subst hnp
-      exact build_pod_ns hb (peersList_wl hpl hs).2
-    refine pairEntry_err_class hv focus (hns s hs) (hns d hd) ?_ herr
-    intro m q hq
-    subst hq
-    have hm := (peersList_wl hpl hd).2
-    refine ⟨(hu q hm q hm rfl).real, ?_⟩
-    rw [hpods] at hm
-    exact hw.ports q hm
+  refine ⟨peersList_equiv heq, podOwnersMap_perm heq.pods heq.podsNodup, fun peers hpl => ?_⟩
+  exact connsBetweenPeers_equiv heq (build_npValid hb hv) focus peers (peers_dstOK hk hr hpp hb hpl)
 
 /-! ### the report -/
 
@@ -2091,74 +2215,31 @@ theorem peerStrs_perm {peers peers' : List LPeer} (h : PeersSim peers peers') :
     obtain ⟨s, hs, hss⟩ := h.bwd s' hs'
     exact ⟨s, hs, hss.str⟩
 
-/-- **the `list` report is order-independent** (inputs without Ingress / Route targets): on a
-well-formed input that `build` accepts, every reordering of the objects yields the same report -/
+/-- **the `list` report is order-independent** (inputs without Ingress / Route targets): on an
+input with distinct keys, real pods, valid ports and valid NetworkPolicy rules that `build` accepts,
+every reordering of the objects yields the same report -/
 theorem runList_perm_noIngress {objs objs' : List Obj} (hp : objs.Perm objs')
-    (hw : WellFormed objs) (hok : ∃ e, Engine.build objs = .ok e)
+    (hk : DistinctKeys objs) (hr : PodsReal objs) (hpp : PodPortsValid objs)
+    (hv : NPRulesValid objs) (hok : ∃ e, Engine.build objs = .ok e)
     (htg : IngressA.targets objs = []) (focus : String) :
     runList objs focus = runList objs' focus := by
   obtain ⟨e, hb⟩ := hok
-  obtain ⟨e', hb', heq⟩ := build_perm hp hw.keys hb
+  obtain ⟨e', hb', heq⟩ := build_perm hp hk hb
   have htg' : IngressA.targets objs' = [] := List.perm_nil.mp ((targets_perm hp).symm.trans (by rw [htg]))
-  cases hemp : e.pods.isEmpty with
-  | true =>
-    have hemp' : e'.pods.isEmpty = true := by rw [← heq.pods.isEmpty_eq]; exact hemp
-    unfold runList
-    simp only [hb, hb', hemp, hemp', if_true]
-  | false =>
-    have hemp' : e'.pods.isEmpty = false := by rw [← heq.pods.isEmpty_eq]; exact hemp
-    cases hpl : e.peersList with
-    | error err =>
-      cases hpl' : e'.peersList with
-      | error err' =>
-        unfold runList
-        simp only [hb, hb', hemp, hemp', hpl, hpl', Bool.false_eq_true, if_false]
-        rw [peersList_error hpl, peersList_error hpl']
-      | ok peers' =>
-        obtain ⟨r, hr⟩ := (peersList_isOk_perm heq.pods).mpr ⟨peers', hpl'⟩
-        rw [hr] at hpl; cases hpl
-    | ok peers =>
-      obtain ⟨peers', hpl'⟩ := (peersList_isOk_perm heq.pods).mp ⟨peers, hpl⟩
-      obtain ⟨owners, ho, _⟩ := peersList_eq hpl
-      obtain ⟨owners', ho', _⟩ := peersList_eq hpl'
-      obtain ⟨hsim, hex⟩ := list_relation_perm hp hw hb hb' hpl hpl' focus
-      have hany := any_isFocus_sim hsim focus
-      have hfeq : focusExists focus (IngressA.allowedIngress objs' owners').isSome
-          (peers'.any (Engine.isFocus focus)) =
-          focusExists focus (IngressA.allowedIngress objs owners).isSome
-            (peers.any (Engine.isFocus focus)) := by
-        rw [allowedIngress_none htg, allowedIngress_none htg', hany]
-      cases hfocus : focusExists focus (IngressA.allowedIngress objs owners).isSome
-          (peers.any (Engine.isFocus focus)) with
-      | false =>
-        have hfocus' := hfeq.trans hfocus
-        unfold focusExists at hfocus hfocus'
-        unfold runList
-        simp only [hb, hb', hemp, hemp', hpl, hpl', ho, ho', hfocus, hfocus', Bool.false_eq_true,
-          if_false, Bool.not_false, if_true]
-      | true =>
-        have hfocus' := hfeq.trans hfocus
-        cases hc : e.connsBetweenPeers peers focus with
-        | error err =>
-          cases hc' : e'.connsBetweenPeers peers' focus with
-          | error err' =>
-            rw [hc, hc'] at hex
-            have : err = err' := hex
-            subst this
-            unfold focusExists at hfocus hfocus'
-            unfold runList
-            simp only [hb, hb', hemp, hemp', hpl, hpl', ho, ho', hfocus, hfocus', hc, hc',
-              Bool.false_eq_true, if_false, Bool.not_true]
-          | ok es' => rw [hc, hc'] at hex; exact absurd hex (by simp [ExPerm, Except.map])
-        | ok es =>
-          cases hc' : e'.connsBetweenPeers peers' focus with
-          | error err' => rw [hc, hc'] at hex; exact absurd hex (by simp [ExPerm, Except.map])
-          | ok es' =>
-            rw [hc, hc'] at hex
-            have hperm : (es.map entryKey).Perm (es'.map entryKey) := hex
-            rw [runList_ok hb hemp hpl ho hfocus hc (ingressEntries_none htg e owners focus),
-              runList_ok hb' hemp' hpl' ho' hfocus' hc' (ingressEntries_none htg' e' owners' focus)]
-            simp only [List.append_nil]
-            exact render_perm (peerStrs_perm hsim) hperm (List.Perm.refl _)
+  obtain ⟨h1, h2, h3⟩ := list_relation_perm hp hk hr hpp hv hb hb' focus
+  unfold runList
+  simp only [hb, hb']
+  rw [← heq.pods.isEmpty_eq, ← h1, ← h2]
+  split
+  · rfl
+  cases hpl : e.peersList with
+  | error err => rfl
+  | ok peers =>
+    cases ho : e.podOwnersMap with
+    | error err => rfl
+    | ok owners =>
+      simp only
+      rw [← h3 peers hpl, allowedIngress_none htg, allowedIngress_none htg',
+        ingressEntries_none htg, ingressEntries_none htg']
 
 end Netpol.PermLayer
